@@ -17,7 +17,7 @@
 (* collapse:  "int+" / "int0" / "int-"  [+-]?digits by sign of the value;  "dec+" / "dec0" / "dec-"    *)
 (* digits with a decimal point, no exponent;  "exp" mantissa with exponent;  "nan" / "inf" any         *)
 (* spelling of not-a-number / infinity;  "bool" true|false;  "time" hh:mm:ss;  "date" YYYY-MM-DD;      *)
-(* "empty";  "other".  tx is kept for "bool", "other", "empty" and for texts of one character.         *)
+(* "empty";  "other".  tx is kept for integers, "bool" and "other" (enumerations may be numerals), dropped for decimals.           *)
 EXTENDS Integers, Sequences, FiniteSets, TLC
 
 XRange(s) == {s[i] : i \in DOMAIN s}
@@ -124,7 +124,7 @@ StateAttrsXsd == <<"velocity", "acceleration", "yawRate", "slipAngle", "steering
                    "deltaYFront", "deltaYRear", "curvature", "curvatureChange", "jerk", "jounce">>   \* 131-162 / 170-201
 StateChildTypes(timeType) ==
   [n \in {"position", "orientation", "time"} \cup XRange(StateAttrsXsd) |->
-     IF n = "position" THEN "position" ELSE IF n = "time" THEN timeType ELSE "decimalExactOrInterval"]
+     IF n = "position" THEN "position" ELSE IF n = "time" THEN timeType ELSE "decimalEoI"]
 StateModel == MAll(<<One("position"), One("orientation"), One("time")>> \o [i \in 1..Len(StateAttrsXsd) |-> Opt(StateAttrsXsd[i])])
 SignalNames == <<"horn", "indicatorLeft", "indicatorRight", "brakingLights", "hazardWarningLights", "flashingBlueLights">>
 SignalModel == MAll(<<One("time")>> \o [i \in 1..Len(SignalNames) |-> Opt(SignalNames[i])])
@@ -157,12 +157,12 @@ Types ==
     decimalExact |-> T(MAll(<<One("exact")>>), [exact |-> "xs_decimal"], NoAt),
     decimalInterval |-> T(MSeq(<<One("intervalStart"), One("intervalEnd")>>),
                           [intervalStart |-> "xs_decimal", intervalEnd |-> "xs_decimal"], NoAt),
-    decimalExactOrInterval |-> T(MChoice(<< <<One("exact")>>, <<One("intervalStart"), One("intervalEnd")>> >>),
+    decimalEoI |-> T(MChoice(<< <<One("exact")>>, <<One("intervalStart"), One("intervalEnd")>> >>),
                                  [exact |-> "xs_decimal", intervalStart |-> "xs_decimal", intervalEnd |-> "xs_decimal"], NoAt),
     integerExactZero |-> T(MAll(<<One("exact")>>), [exact |-> "integerZero"], NoAt),
-    integerIntervalGreaterZero |-> T(MSeq(<<One("intervalStart"), One("intervalEnd")>>),
+    integerIvGt0 |-> T(MSeq(<<One("intervalStart"), One("intervalEnd")>>),
                                      [intervalStart |-> "xs_nonNegativeInteger", intervalEnd |-> "xs_positiveInteger"], NoAt),
-    integerExactOrIntervalGreaterZero |->
+    integerEoIGt0 |->
         T(MChoice(<< <<One("exact")>>, <<One("intervalStart"), One("intervalEnd")>> >>),
           [exact |-> "xs_positiveInteger", intervalStart |-> "xs_nonNegativeInteger", intervalEnd |-> "xs_positiveInteger"], NoAt),
     \* 71-125 geometry
@@ -180,19 +180,19 @@ Types ==
                            [rectangle |-> "rectangle", circle |-> "circle", polygon |-> "polygon", lanelet |-> "ref"], NoAt),
     ref |-> RefT,
     \* 126-250 states
-    state |-> T(StateModel, StateChildTypes("integerExactOrIntervalGreaterZero"), NoAt),
+    state |-> T(StateModel, StateChildTypes("integerEoIGt0"), NoAt),
     initialState |-> T(StateModel, StateChildTypes("integerExactZero"), NoAt),
     initialSignalState |-> T(SignalModel, SignalChildTypes("integerExactZero"), NoAt),
-    signalState |-> T(SignalModel, SignalChildTypes("integerExactOrIntervalGreaterZero"), NoAt),
+    signalState |-> T(SignalModel, SignalChildTypes("integerEoIGt0"), NoAt),
     initialStateExact |-> T(MAll(<<One("position"), One("velocity"), One("orientation"), One("yawRate"), One("slipAngle"),
                                    One("time"), Opt("acceleration")>>),
                             [position |-> "positionExact", velocity |-> "decimalExact", orientation |-> "decimalExact",
                              yawRate |-> "decimalExact", slipAngle |-> "decimalExact", time |-> "integerExactZero",
                              acceleration |-> "decimalExact"], NoAt),
     goalState |-> T(MAll(<<One("time"), Opt("position"), Opt("orientation"), Opt("velocity")>>),
-                    [time |-> "integerIntervalGreaterZero", position |-> "positionInterval",
+                    [time |-> "integerIvGt0", position |-> "positionInterval",
                      orientation |-> "decimalInterval", velocity |-> "decimalInterval"], NoAt),
-    occupancy |-> T(MSeq(<<One("shape"), One("time")>>), [shape |-> "shape", time |-> "integerExactOrIntervalGreaterZero"], NoAt),
+    occupancy |-> T(MSeq(<<One("shape"), One("time")>>), [shape |-> "shape", time |-> "integerEoIGt0"], NoAt),
     \* 269-356 lanelet
     bound |-> T(MSeq(<<Pt("point", 2, U), Opt("lineMarking")>>), [point |-> "point", lineMarking |-> "lineMarking"], NoAt),
     laneletAdjacentRef |-> T(MEmpty, <<>>, <<At("ref", "integer", TRUE), At("drivingDir", "drivingDir", TRUE)>>),
@@ -239,11 +239,11 @@ Types ==
                           [initialState |-> "initialStateExact", goalState |-> "goalState"], IdAt),
     \* 830-922 location, tags
     geoReference |-> T(MMixed, <<>>, NoAt),
-    additionalTransformation |-> T(MSeq(<<One("xTranslation"), One("yTranslation"), One("zRotation"), One("scaling")>>),
+    additionalTransf |-> T(MSeq(<<One("xTranslation"), One("yTranslation"), One("zRotation"), One("scaling")>>),
                                    [xTranslation |-> "xs_decimal", yTranslation |-> "xs_decimal", zRotation |-> "xs_decimal",
                                     scaling |-> "positiveDecimal"], NoAt),
     geoTransformation |-> T(MChoice(<< <<>>, <<One("geoReference"), One("additionalTransformation")>> >>),
-                            [geoReference |-> "geoReference", additionalTransformation |-> "additionalTransformation"], NoAt),
+                            [geoReference |-> "geoReference", additionalTransformation |-> "additionalTransf"], NoAt),
     environment |-> T(MSeq(<<One("time"), One("timeOfDay"), One("weather"), One("underground")>>),
                       [time |-> "xs_time", timeOfDay |-> "timeOfDay", weather |-> "weather", underground |-> "underground"], NoAt),
     location |-> T(MSeq(<<One("geoNameId"), One("gpsLatitude"), One("gpsLongitude"), Opt("geoTransformation"), Opt("environment")>>),
@@ -266,8 +266,8 @@ Types ==
 TKey(t) == t
 
 (* ---------------------------------- acceptance ----------------------------------------------------- *)
-RECURSIVE Run(_, _, _)
-Run(ch, j, name) == IF j > Len(ch) \/ ch[j] # name THEN 0 ELSE 1 + Run(ch, j + 1, name)   \* leading run of `name` from j
+Run(ch, j, name) == LET S == {k \in j..Len(ch) : ch[k] # name} IN                         \* leading run of `name` from j
+                    IF S = {} THEN Len(ch) - j + 1 ELSE (CHOOSE k \in S : \A r \in S : k <= r) - j
 RECURSIVE AccSeq(_, _, _, _)
 AccSeq(ps, ch, i, j) == IF i > Len(ps) THEN j > Len(ch)
                         ELSE LET r == Run(ch, j, ps[i].n) IN r >= ps[i].lo /\ r <= ps[i].hi /\ AccSeq(ps, ch, i + 1, j + r)
@@ -322,9 +322,8 @@ KeyRule(ids, refs) ==
   ELSE IF \E r \in DOMAIN refs : ~\E i \in sel : ids[i][2] = refs[r] THEN "Key/ref"
   ELSE ""
 
-RECURSIVE FirstElemRule(_, _)
-FirstElemRule(els, i) == IF i > Len(els) THEN "" ELSE IF ElemRule(els[i]) # "" THEN ElemRule(els[i]) ELSE FirstElemRule(els, i + 1)
-(* first rule of the schema a document breaks, "" if it is valid *)
-DocRule(els, ids, refs) == IF FirstElemRule(els, 1) # "" THEN FirstElemRule(els, 1) ELSE KeyRule(ids, refs)
+(* first rule of the schema a document breaks (document order), "" if it is valid *)
+DocRule(els, ids, refs) == LET bad == {i \in DOMAIN els : ElemRule(els[i]) # ""} IN
+                           IF bad # {} THEN ElemRule(els[CHOOSE i \in bad : \A r \in bad : i <= r]) ELSE KeyRule(ids, refs)
 SchemaAccepts(els, ids, refs) == DocRule(els, ids, refs) = ""
 =============================================================================
